@@ -92,7 +92,9 @@ func gsBounds(c *Ctx) gsConfig {
 	if c.Quick() {
 		return gsConfig{MaxDepth: 3, OpDev: 2, ParamDev: 1, MateDev: 1, MateDepth: 1, BudgetS: 40, Policies: []string{"Z", "M", "A"}, MatePol: []string{"Z", "A"}, MaxStates: 20000, WithMating: true}
 	}
-	return gsConfig{MaxDepth: 5, OpDev: 3, ParamDev: 2, MateDev: 2, MateDepth: 2, BudgetS: 600, Policies: []string{"Z", "M", "A"}, MatePol: []string{"Z", "M", "A"}, MaxStates: 200000, WithMating: true}
+	// thorough: the quick bounds one level deeper (breadth-first, so everything the quick tier covers is
+	// covered first), under a per-family time cap that is reported
+	return gsConfig{MaxDepth: 4, OpDev: 2, ParamDev: 1, MateDev: 1, MateDepth: 1, BudgetS: 1000, Policies: []string{"Z", "M", "A"}, MatePol: []string{"Z", "A"}, MaxStates: 300000, WithMating: true}
 }
 
 func runGenomeSpaces(c *Ctx, prop string, oracle func(t *gsTransition)) {
